@@ -12,22 +12,30 @@ MANIFEST = {
             "rotations and normalisations: modes vanish outside the inscribed pupil, list = slices of count (payloads without algebraic "
             "laws), phase = linear combination, unit rms / unit peak-to-valley for non-degenerate modes, the Cartesian model equals the "
             "code's polar expression, the term-by-term radial integral is the integral, gamma entries times c_j = integer times c_i, makegammas' (n, m) bookkeeping = the Noll sequence for every nzrad. "
-            "Kernel-checked exact TABLES (labelled as such, not the unbounded claims): R_n^m(1)=1 (n <= 30), radial orthogonality "
-            "(n <= 10), the x/y derivative identity of all 45 modes of radial order "
-            "<= 8 as integer polynomial identities. The model is tied to the code by a correspondence driver (Noll exhaustively to "
+            "R_n^m(1) = 1 for ALL valid (n, m) (alternating binomial convolution, proved by induction). For all orders: mode at rot=0 = "
+            "c * evaluation of an integer polynomial (exact integer division of the factorials), formal dx/dy of such polynomials are the "
+            "partial derivatives (HasDerivAt). "
+            "Kernel-checked exact TABLES (labelled as such, not the unbounded claims): radial orthogonality "
+            "(n <= 10), the x/y derivative identity of all 91 modes of radial order "
+            "<= 12 (makegammas(8) and makegammas(12)) as integer polynomial identities, hence (bounded, radial order <= 12) d/dx Z_i = sum_j "
+            "gamma^x_ij Z_j and d/dy likewise as HasDerivAt statements about the model's modes; for EVERY nzrad that derivative statement is "
+            "reduced to the decidable integer-polynomial table. The model is tied to the code by a correspondence driver (Noll exhaustively to "
             "1e5/1e6 + block boundaries to 2^49, radial values, pixels, integer-polynomial pixels, arrays, phases, gamma matrices) and a "
             "direct oracle on the real code finds failing inputs.",
     "note": "Trusted: Lean kernel + propext/Classical.choice/Quot.sound; Mathlib's Real.sqrt/cos/sin/intervalIntegral; the correspondence "
             "harness. Not proved for all orders (tables + numeric oracle only): orthonormality / Gram -> identity under grid refinement, "
-            "R_n^m(1)=1, the derivative rules, and the bridge from the integer-polynomial table to a HasDerivAt statement about the "
-            "model's modes; IEEE rounding and NumPy semantics are exercised, not modelled.",
+            "the derivative rules beyond radial order 12; IEEE rounding and NumPy semantics are exercised, not modelled.",
     "technique": "Lean 4 proof over a hand-written model + exact kernel-checked tables + correspondence driver + oracle search",
 }
 REQUIRED = ["nollN_spec", "nollN_unique", "zernIndex_valid", "nollOf_zernIndex", "zernIndex_nollOf", "noll_bijective", "noll_ordered",
             "noll_sign", "noll_m_zero", "zernIndex_float_agrees", "vanish_outside", "nollPixel_vanish_outside", "normalise_vanish",
             "clip_eq_mask", "list_eq_slices", "phase_linear", "rms_unit", "p2v_unit", "radialFunc_eq_coef", "radialFunc_eq_quot",
             "table_radial_at_one", "table_radial_orthogonal", "radial_integral", "radial_orthogonal_le10", "radial_at_one_le30",
-            "mode_polar", "table_gammaNM_noll", "gammaNM_noll", "table_gamma_dx", "table_gamma_dy", "gamx_cleared", "gamy_cleared"]
+            "radial_at_one", "radial_at_one_rat", "radial_at_one_noll",
+            "mode_polar", "table_gammaNM_noll", "gammaNM_noll", "table_gamma_dx", "table_gamma_dy", "gamx_cleared", "gamy_cleared",
+            "modeCart_eq_poly", "nollMode_eq_poly", "table_gamma_dx_eval", "table_gamma_dy_eval", "gamma_dx_le8", "gamma_dy_le8",
+            "residual_dx_eval", "residual_dy_eval", "gamma_dx_of_table", "gamma_dy_of_table", "table_gamma_dx12", "table_gamma_dy12",
+            "gamma_dx_le12", "gamma_dy_le12"]
 
 RT = 1e-9
 
@@ -209,8 +217,8 @@ def correspondence(chk, quick):
         add("C12 phase %s %d %s %s" % (norm, N, common.f2h(rot), " ".join(common.f2h(c) for c in cs)), f)
         chk.count("phase:%s" % norm)
         chk.case(("corr", "phase", tuple(cs), N, norm, rot), sample={"op": "C12 phase", "coeffs": cs, "N": N, "norm": norm, "rot": rot})
-    # (f) gamma matrices (float32 in the implementation)
-    for nzrad in range(0, 9 if quick else 13):
+    # (f) gamma matrices (float32 in the implementation); nzrad 12 in every run: theorems gamma_dx_le12 / gamma_dy_le12 are about gammaNM 12
+    for nzrad in (list(range(0, 9)) + [12] if quick else range(0, 13)):
         e = Z.makegammas(nzrad)
 
         def f(ans, nzrad=nzrad, e=e):
@@ -227,7 +235,7 @@ def correspondence(chk, quick):
         chk.count("gamma:nzrad=%d" % nzrad)
         chk.case(("corr", "gamma", nzrad), sample={"op": "C12 gamma", "nzrad": nzrad, "shape": list(e.shape)} if nzrad == 3 else None)
     # (g) the cleared INTEGER matrices of the tables: gam[i,j] = g_int[i,j]·c_i/c_j with c = sqrt(n+1) (m=0) or sqrt(2(n+1))
-    for nzrad in range(1, 9 if quick else 13):
+    for nzrad in (list(range(1, 9)) + [12] if quick else range(1, 13)):
         e = Z.makegammas(nzrad).astype(float)
         nz = e.shape[1]
         c = numpy.array([math.sqrt(n + 1) if m == 0 else math.sqrt(2 * (n + 1)) for n, m in (Z.zernIndex(j) for j in range(1, nz + 1))])
@@ -516,10 +524,11 @@ def run(chk):
         "orthonormality of the modes for ALL orders and 'Gram matrix -> identity as the grid is refined' are not proved (no Jacobi-polynomial "
         "theory in Mathlib): proved radial orthogonality over R for n,n' <= 10 (radial_integral + kernel-checked table) + numeric oracle "
         "(exact Gauss-Legendre radial integrals to n = 14/24; Gram bound 2(n_max+1)/N, a calibrated constant, not a theorem)",
-        "R_n^m(1) = 1 is a kernel-checked table (n <= 30), beyond that exercised by the oracle only",
-        "derivative (gamma) identities: exact integer-polynomial TABLE for radial orders <= 8 + gamx/gamy_cleared for all orders; NOT proved: "
-        "modeCart = c * eval(zernPoly) (exercised by the polymode correspondence), Poly.dx = derivative of Poly.eval, and orders > 8 "
-        "(oracle with an exact stencil derivative to nzrad 8 / 12)",
+        "derivative (gamma) identities: proved as HasDerivAt statements (gamma_dx_le12, gamma_dy_le12; gamma_dx_le8, gamma_dy_le8) for the 91 "
+        "modes of radial order <= 12 only: the polynomial identity dP_i = sum g_ij P_j is a kernel-checked TABLE (nzrad 8 and 12); for every "
+        "nzrad the derivative claim is reduced to that decidable table (gamma_dx_of_table, gamma_dy_of_table), the bridge (modeCart = c * "
+        "eval(zernPoly), Poly.dx/dy = partial derivatives of Poly.eval, gamx/gamy_cleared, gammaNM_noll) holding for all orders; orders > 12 "
+        "are NOT proved (Noll's recurrence for general n is missing) and not exercised (oracle with an exact stencil derivative to nzrad 8 / 12)",
         "binary64: the square root is assumed correctly rounded hence monotone, exact on integers, relative error <= 2^-53 (hypotheses of "
         "zernIndex_float_agrees; '-1.+s' and '/2.' are exact for a binary64 s >= 1); rounding elsewhere is not modelled",
         "the polar form cos(m*atan2(y,x)+rot) of the code is tied to the Cartesian polynomial model by theorem mode_polar for points given in "
